@@ -124,6 +124,7 @@ func derivesFromPrivateMarshal(v ssa.Value, depth int, seen map[ssa.Value]bool) 
 func isWriteFile(n string) bool { return n == "io/ioutil.WriteFile" || n == "os.WriteFile" }
 
 func checkC19(c *km.Ctx) {
+	c19ctx = c
 	r := c.R
 	s := km.NewSem(c)
 	r.Explain = "Static analysis of /repo's client packages (loaded with CGO_ENABLED=0; only the third-party HID package fails to type-check): type-directed taint - no value of a private-key type and no byte string derived from a private-key marshal call is an argument of a request constructor, HTTP client call, multipart writer, header/form setter, logger or raw connection write; marshalled private keys reach only file writes with the constant mode 0600 (and no chmod widens such a file); the key material placed in certificate requests derives only from signer.Public(); the agent upsert removes same-comment certificates before adding and aborts on error; every SSH key type the client can generate is in the alternation of the server's key-type pattern (parsed with regexp/syntax) and meets the server's strength constants. Decides provenance and agreement of constants, not bytes on the wire."
@@ -673,6 +674,18 @@ func derivesOnlyFromPublicR(v ssa.Value, signer *ssa.Parameter, roots map[ssa.Va
 		case "crypto/x509.MarshalPKIXPublicKey", "golang.org/x/crypto/ssh.NewPublicKey", "golang.org/x/crypto/ssh.MarshalAuthorizedKey", "encoding/pem.EncodeToMemory":
 			return derivesOnlyFromPublicR(x.Common().Args[0], signer, roots, depth+1)
 		}
+		// a serialiser chosen from a package-level table of functions: every entry is judged like a helper
+		if km.StaticCallee(x.Common()) == nil && !x.Common().IsInvoke() && c19ctx != nil && depth < 6 {
+			targets := tableFuncTargets(c19ctx, x.Common().Value)
+			if len(targets) > 0 {
+				for _, g := range targets {
+					if ok, why := helperResultsPublic(g, x, signer, roots, depth); !ok {
+						return false, why
+					}
+				}
+				return true, sprintf("serialised by one of %d table entries from public material only", len(targets))
+			}
+		}
 		// a serialising helper of the client: its results derive only from the parameters the caller bound to
 		// public material
 		if g := km.StaticCallee(x.Common()); g != nil && g.Blocks != nil && g.Pkg != nil && strings.HasPrefix(g.Pkg.Pkg.Path(), km.ModPath) && depth < 6 {
@@ -729,4 +742,92 @@ func derivesOnlyFromPublicR(v ssa.Value, signer *ssa.Parameter, roots map[ssa.Va
 		return derivesOnlyFromPublicR(x.X, signer, roots, depth+1)
 	}
 	return false, "value of unknown origin " + clipS(km.ValStr(v), 60)
+}
+
+// c19ctx: the context of the running C19 check (the provenance walk needs the whole program to read tables).
+var c19ctx *km.Ctx
+
+// tableFuncTargets: fv is looked up in a package-level map of functions that is filled once in its initialiser;
+// returns the functions the table holds (nil when fv is not such a lookup or an entry is not a plain function).
+func tableFuncTargets(c *km.Ctx, fv ssa.Value) []*ssa.Function {
+	fv = km.Unwrap(fv)
+	var lk *ssa.Lookup
+	if ex, ok := fv.(*ssa.Extract); ok && ex.Index == 0 {
+		lk, _ = ex.Tuple.(*ssa.Lookup)
+	} else {
+		lk, _ = fv.(*ssa.Lookup)
+	}
+	if lk == nil {
+		return nil
+	}
+	u, ok := km.Unwrap(lk.X).(*ssa.UnOp)
+	if !ok {
+		return nil
+	}
+	g, ok := u.X.(*ssa.Global)
+	if !ok {
+		return nil
+	}
+	entries, okTab := globalTableEntries(c, g)
+	if !okTab {
+		return nil
+	}
+	var out []*ssa.Function
+	seen := map[*ssa.Function]bool{}
+	for _, mu := range entries {
+		var fn *ssa.Function
+		switch x := km.Unwrap(mu.Value).(type) {
+		case *ssa.Function:
+			fn = x
+		case *ssa.MakeClosure:
+			if len(x.Bindings) == 0 {
+				fn, _ = x.Fn.(*ssa.Function)
+			}
+		}
+		if fn == nil || fn.Blocks == nil {
+			return nil
+		}
+		if !seen[fn] {
+			seen[fn] = true
+			out = append(out, fn)
+		}
+	}
+	return out
+}
+
+// helperResultsPublic: every non-nil first result of g derives only from the parameters the call binds to public
+// material.
+func helperResultsPublic(g *ssa.Function, call *ssa.Call, signer *ssa.Parameter, roots map[ssa.Value]bool, depth int) (bool, string) {
+	inner := map[ssa.Value]bool{}
+	for i, a := range km.CallArgs(call.Common()) {
+		if i < len(g.Params) {
+			if ok, _ := derivesOnlyFromPublicR(a, signer, roots, depth+1); ok {
+				inner[g.Params[i]] = true
+			}
+		}
+	}
+	n := 0
+	okAll := true
+	why := ""
+	km.Instrs(g, func(in ssa.Instruction) {
+		ret, isRet := in.(*ssa.Return)
+		if !isRet || (g.Recover != nil && ret.Block() == g.Recover) {
+			return
+		}
+		rv := km.ReturnValues(ret)[0]
+		if km.IsNilConst(rv) {
+			return
+		}
+		n++
+		if ok, w := derivesOnlyFromPublicR(rv, nil, inner, depth+1); !ok {
+			okAll, why = false, w
+		}
+	})
+	if n > 0 && okAll {
+		return true, ""
+	}
+	if why == "" {
+		why = "no result"
+	}
+	return false, why + " (in " + g.Name() + ")"
 }
